@@ -101,7 +101,41 @@ def arch32_lines(prop, tier, seed):
     return keep
 
 
-def gen_recorder(prop, arch32=True):
+def cold_lines(binary, lang, seed, rnd):
+    d = vlib.scratch("verif-cold-")
+    out = os.path.join(d, "cold.ndjson")
+    env = dict(os.environ, VERIF_DATA=os.path.join(vlib.SPEC, "data"), GOMAXPROCS=str([16, 4, 8][rnd % 3]))
+    r = subprocess.run(["timeout", "300", binary, "cold", "-lang", str(lang), "-seed", str(seed), "-n", str(rnd), "-out", out],
+                       capture_output=True, text=True, env=env)
+    lines = vlib.read_trace(out) if os.path.exists(out) else []
+    if lines and not lines[-1].endswith("\n"):
+        lines = lines[:-1]
+    if r.returncode != 0:
+        # the Go runtime ends the process on unsynchronised map access ("fatal error: concurrent map ..."), which no
+        # recover can stop: behaviour of the real code, recorded as a Crash event
+        if "github.com/islishude/bip39" in r.stderr and ("fatal error" in r.stderr or "panic:" in r.stderr):
+            if not any('"cold":true' in x for x in lines):        # died before its buffered output reached the file
+                lines = [json.dumps({"op": "Reset", "fresh_process": True, "seed": seed, "tier": "quick", "prop": ""}, separators=(",", ":")) + "\n",
+                         json.dumps({"op": "Cut", "source": "os", "cold": True, "cold_lang": lang, "cold_seed": seed, "cold_round": rnd}, separators=(",", ":")) + "\n"]
+            lines.append(json.dumps({"op": "Crash", "conc": True, "panicked": True, "timeout": False,
+                                     "panic": [ord(c) for c in r.stderr[:1200] if ord(c) < 0x110000]}) + "\n")
+        else:
+            raise Infra("harness cold failed rc=%d: %s" % (r.returncode, r.stderr[-1500:]))
+    vlib.shutil.rmtree(d, ignore_errors=True)
+    return lines
+
+
+def cold_start(binary, tier, seed):
+    """fresh processes whose first validations are made by 24 goroutines arriving microseconds apart (lazy table
+    construction under way): what each call returned is validated like a sequential call"""
+    lines = []
+    for rnd in range(3 if tier == "quick" else 40):
+        for lang in range(10):
+            lines += cold_lines(binary, lang, seed, rnd)
+    return lines
+
+
+def gen_recorder(prop, arch32=True, cold=False):
     def rec(binary, tier, seed):
         d = vlib.scratch("verif-tr-")
         out = os.path.join(d, "trace.ndjson")
@@ -109,8 +143,46 @@ def gen_recorder(prop, arch32=True):
         lines = vlib.read_trace(out)
         if arch32:
             lines += arch32_lines(prop, tier, seed)
+        if cold:
+            lines += cold_start(binary, tier, seed)
         return lines, sum(1 for x in lines if '"op":"Reset"' in x), {}
     return rec
+
+
+def plain_replay(prop, path, binary):
+    d = vlib.scratch("verif-rp-")
+    out = os.path.join(d, "replay.ndjson")
+    vlib.run_harness(binary, ["replay", "-arg", path, "-out", out])
+    lines = vlib.read_trace(out)
+    v = vlib.validate(lines, [prop], shards=1)
+    if v.infra:
+        raise Infra("replay trace unusable: %s" % v.infra[:3])
+    mine = [b for b in v.bad if b[1] == prop]
+    return (len(mine) == 0, "re-executed %d events, %d failing" % (len(lines), len(mine)))
+
+
+def cold_replay(prop):
+    """a failure recorded in a cold concurrent start depends on the schedule: fresh processes of the same kind are
+    started again (up to 400) until one shows a failing call; everything else is re-executed call by call"""
+    def rp(path, binary):
+        unit = json.load(open(path))["unit"]
+        cut = unit[0] if unit else {}
+        if not cut.get("cold"):
+            return plain_replay(prop, path, binary)
+        tried = 0
+        for batch in range(20):
+            lines = []
+            for k in range(20):
+                lines += cold_lines(binary, cut["cold_lang"], cut["cold_seed"], 1000 + batch * 20 + k)
+                tried += 1
+            v = vlib.validate(lines, [prop], shards=4)
+            if v.infra:
+                raise Infra("replay trace unusable: %s" % v.infra[:3])
+            mine = [b for b in v.bad if b[1] == prop]
+            if mine:
+                return (False, "cold concurrent start repeated in %d fresh processes: %d failing calls" % (tried, len(mine)))
+        return (True, "cold concurrent start repeated in %d fresh processes, no failing call" % tried)
+    return rp
 
 
 def phased_recorder(prop):
@@ -293,7 +365,7 @@ RECIPES = {
     "C01": dict(mc=[mc_codec(False)], record=gen_recorder("C01"), props=["C01"], speaks=valid_enc,
                 rule="NewMnemonicByEntropy calls with a valid size and supported language, distinct by (entropy, language); families: Latin square "
                      "(every (position,index) pair), every index at the last position, every first SHA-256 byte, 0/1 runs, single bits, random"),
-    "C02": dict(mc=[mc_codec(True)], record=gen_recorder("C02"), props=["C02"],
+    "C02": dict(mc=[mc_codec(True)], record=gen_recorder("C02", cold=True), replay=cold_replay("C02"), prefix_ok=True, props=["C02"],
                 speaks=lambda e: is_check(e) and (e.get("gen") or e.get("op") == "Sweep"),
                 rule="mnemonics generated by NewMnemonicByEntropy / NewMnemonic fed back into CheckMnemonic+IsMnemonicValid, and last-word sweeps "
                      "(the 2^(11-CS) predicted words must all be accepted); distinct by (sentence, language); canonical validity is decided by TLC from the input alone"),
@@ -303,7 +375,7 @@ RECIPES = {
     "C15": dict(mc=[mc_codec(False)], record=gen_recorder("C15"), props=["C15"], speaks=lambda e: e.get("op") == "Check",
                 rule="CheckMnemonic error values on sentences with one class of defect (counts 0..30, unknown tokens at every position, wrong last word) "
                      "and on the C03 mutation classes; distinct by (input, language)"),
-    "C08": dict(mc=[MC_LISTS], record=gen_recorder("C08"), props=["C08"], exhaustive=True, need_cover=True,
+    "C08": dict(mc=[MC_LISTS], record=gen_recorder("C08", cold=True), replay=cold_replay("C08"), prefix_ok=True, props=["C08"], exhaustive=True, need_cover=True,
                 speaks=lambda e: e.get("op") in ("ByEntropy", "Check", "ListSource"),
                 rule="all 10 x 2048 list indices: the word emitted through NewMnemonicByEntropy for every index (cover family), validation of sentences "
                      "containing every word and of the same sentences with one word replaced by a list neighbour, and the parsed source text of internal/wordlist/*.go"),
@@ -617,6 +689,12 @@ def record_c07(binary, tier, seed):
             lines += ls
             observed += ob
             nproc += 1
+    # calls that overlap in time on one source (a call held inside Read while another runs to completion): each call's
+    # output is still made of the bytes its own reads delivered, nobody else's
+    out2 = os.path.join(d, "overlap.ndjson")
+    vlib.run_harness(binary, ["overlap", "-tier", tier, "-seed", str(seed), "-out", out2])
+    lines += vlib.read_trace(out2)
+    nproc += 1
     if observed == 0:
         vlib.log("note: getrandom is not observable with this toolchain; C07 falls back to source identity + well-formed, fresh outputs")
     return lines, nproc, {"processes": nproc, "default_source_calls_explained_by_getrandom": observed,
@@ -625,6 +703,17 @@ def record_c07(binary, tier, seed):
 
 def replay_c07(path, binary):
     rp = json.load(open(path))
+    cut = next((e for e in rp["unit"] if e.get("op") == "Cut" and "overlap_seed" in e), None)
+    if cut is not None:
+        d = vlib.scratch("verif-rp-")
+        out = os.path.join(d, "replay.ndjson")
+        vlib.run_harness(binary, ["overlap", "-tier", cut["overlap_tier"], "-seed", str(cut["overlap_seed"]), "-out", out])
+        lines = vlib.read_trace(out)
+        v = vlib.validate(lines, ["C07"], shards=4)
+        if v.infra:
+            raise Infra("replay trace unusable: %s" % v.infra[:3])
+        mine = [b for b in v.bad if b[1] == "C07"]
+        return (len(mine) == 0, "overlap scenarios run again: %d events, %d failing" % (len(lines), len(mine)))
     # the process is re-run with the word count of the failing call (the unit starts with a 24-word call)
     k = rp.get("failing_event", 0)
     fe = rp["unit"][k - 1] if 0 < k <= len(rp["unit"]) else {}
@@ -792,7 +881,18 @@ def record_c13(binary, tier, seed):
                    {"op": "ent", "cls": "e16", "lang": sm["U"], "var": 0}]
         english = [{"op": "chk", "cls": "valid", "lang": 2, "var": 0}, {"op": "chk", "cls": "unknown", "lang": 2, "var": 0}]
         again = [dict(st) for st in (opening + body)[:25] if st["op"] in ("chk", "ent", "seed", "str")]
-        steps = [{"op": "observe"}] + opening + body + english + again + [{"op": "recheck"}]
+        # generation from the same stream, delivered in the same pieces, before and after a generation of another
+        # size from another stream: same arguments, same bytes drawn, same result
+        la, lb = sm["A"], sm["B"]
+        n1, n2 = rng.choice([(12, 24), (15, 21), (18, 24), (24, 12), (21, 15)])
+        cls = rng.choice(["frag", "whole", "frag"])
+        rep = {"op": "new", "n": n1, "lang": la, "script": script_for(cls, n1), "after": "data", "fill": 100}
+        regen = [{"op": "swap", "kind": "script"}, dict(rep),
+                 {"op": "new", "n": n2, "lang": lb, "script": script_for("whole", n2), "after": "data", "fill": 101},
+                 dict(rep),
+                 {"op": "new", "n": n1, "lang": la, "script": script_for("fail5", n1), "after": "EOF", "fill": 101},
+                 dict(rep), {"op": "swap", "kind": "os"}]
+        steps = [{"op": "observe"}] + opening + body + english + again + regen + [{"op": "recheck"}]
         prog, out = os.path.join(d, "prog.json"), os.path.join(d, "trace.ndjson")
         json.dump({"steps": steps}, open(prog, "w"))
         vlib.run_harness(binary, ["prog", "-arg", prog, "-seed", str(seed), "-out", out],
